@@ -1,6 +1,9 @@
 use std::collections::HashSet;
 use std::mem::swap;
+#[cfg(not(mmtk_verif))]
 use std::sync::Mutex;
+#[cfg(mmtk_verif)]
+use crate::util::verif::sync::Mutex;
 
 use crate::util::ObjectReference;
 
